@@ -1,12 +1,13 @@
 """C09 — hard validation criteria are enforced soundly, completely and consistently."""
 import math
+from fractions import Fraction
 
 import numpy as np
 
 import translate_hc
 from common import LEAN, REPO, R, Ro, Cxo, fl
 
-LEAN_MODULES = ["PyomaVerif.Props.C09", "PyomaVerif.Mutants.C09", "PyomaVerif.Props.C09C18", "PyomaVerif.Props.C09All", "PyomaVerif.Props.C09Blank"]
+LEAN_MODULES = ["PyomaVerif.Props.C09", "PyomaVerif.Mutants.C09", "PyomaVerif.Props.C09C18", "PyomaVerif.Props.C09All", "PyomaVerif.Props.C09Blank", "PyomaVerif.Props.C09Stored", "PyomaVerif.Props.C09Run", "PyomaVerif.Props.C09RunLink"]
 THEOREMS = [
     # C09 for all six classes as ONE theorem over the list (program, required fields, which flags exist)
     "PV.C09All.C09_seq_all",
@@ -56,12 +57,45 @@ THEOREMS = [
     "PV.C09Blank.blank_one_table_fails",
     "PV.C09Blank.blank_one_table_misses_damp",
     "PV.C09Blank.blank_none_stuck",
+    # depth round (audit C09 gaps 2, 3 / C01 gap 1): neutral limits = identity, a passing pole survives, HC_conj instantiated, cexec step = HcFn.*
+    "PV.C09Stored.C09_neutral_identity",
+    "PV.C09Stored.C09_neutral_identity_table",
+    "PV.C09Stored.C09_kept_survives",
+    "PV.C09Stored.C09_raw_survives",
+    "PV.C09Stored.C09_conj_present",
+    "PV.C09Stored.C09_maskO_applymask",
+    "PV.C09Stored.C09_cexec_hcDamp",
+    "PV.C09Stored.C09_cexec_hcCov",
+    "PV.C09Stored.C09_cexec_hcConj",
+    "PV.C09Stored.exN_neutral",
+    "PV.Stored.kept_neutral_iff",
+    "PV.Stored.stored_tables",
+    "PV.HcFn.cellAt_applymask",
+    "PV.HcFn.cellAt_hcDamp",
+    "PV.HcFn.cellAt_hcCov",
+    "PV.HcFn.cellAt_hcConj",
+    "PV.HcFn.conjGrid_iff",
+    "PV.HcFn.conjGrid_cellAt",
+    # the EXECUTABLE run (HcFn.lrunClass = op hc_run, compared with algorithm.result in stream run[<class>]) simulates crun
+    # and satisfies the property: returns, every stored table = unfiltered table blanked exactly where a criterion fails
+    "PV.HcFn.lexec_sound",
+    "PV.HcFn.lrun_sound",
+    "PV.C09Run.lrun_of_arun",
+    "PV.C09Run.C09_lrun_stored",
+    "PV.C09Run.classProgs_check",
+    "PV.C09Run.C09_lrun_all",
+    "PV.C09Run.CritL_iff",
+    # ... and, under the contract that the recorded MPC/MPD decide the library's criteria, returns the very tables of runOf (C09All)
+    "PV.C09RunLink.crit_eq",
+    "PV.C09RunLink.C09_lrun_is_runOf",
+    "PV.C09RunLink.ex_contract",
 ]
 RULE = (
     "translator: the hard-criteria statements of the six run() bodies are regenerated into Lean on every run and the "
     "sequencing theorems re-checked by the kernel (its fail-closed rule is self-tested on the current sources: 73 kinds of "
     "unmodelled writes / mutations / aliases inserted into each run() must be refused, 11 read-only ones and a renaming accepted); correspondence: gen.HC_damp/HC_cov/HC_conj/HC_phi_comp/applymask vs the "
-    "Lean cell models on random NaN-bearing tables (exact); oracle: real runs of SSIdat/SSIcov(+uncertainty)/SSIdat_MS/"
+    "Lean cell models on random NaN-bearing tables (exact), and run[<class>]: the whole hard-criteria part of run() as one executable "
+    "model (HcFn.lrunClass on the regenerated program) vs algorithm.result of real runs, every stored table cell by cell (exact); oracle: real runs of SSIdat/SSIcov(+uncertainty)/SSIdat_MS/"
     "SSIcov_MS/pLSCF/pLSCF_MS on small random data with random criteria, the unfiltered solution captured from the pole "
     "routine, every cell judged from the property statement. distinct = (class, conj, criteria that actually rejected a pole)"
 )
@@ -210,6 +244,146 @@ def correspondence(ctx):
         if k == 0:
             ctx.sample({"HC_damp_table": t.tolist(), "max": mx})
     _translator_selftest(ctx)
+    _corr_runs(ctx)
+
+
+# ----------------------------------------------------------------------------- correspondence: the whole run()
+def _corr_runs(ctx):
+    """stream run[<class>]: the hard-criteria part of run() as ONE executable model (HcFn.lrunClass on the program
+    regenerated from /repo, op hc_run) against algorithm.result of a real run: the unfiltered tables are captured from
+    the pole routine inside run(), MPC / MPD of every unfiltered shape are computed with the library's own functions and
+    handed over, every stored table is compared cell by cell (NaN pattern and values, exactly)."""
+    from pyoma2.algorithms import SSIcov, SSIdat, pLSCF
+    from pyoma2.algorithms.plscf import pLSCF_MS
+    from pyoma2.algorithms.ssi import SSIcov_MS, SSIdat_MS
+    from pyoma2.functions import gen
+    from pyoma2.functions import plscf as f_plscf
+    from pyoma2.functions import ssi as f_ssi
+    from pyoma2.setup import MultiSetup_PreGER, SingleSetup
+
+    rng = ctx.rng
+    classes = ["SSIdat", "SSIcov", "SSIdat_MS", "SSIcov_MS", "pLSCF", "pLSCF_MS"]
+    for k in range(ctx.n(12, 120)):
+        cls = classes[k % 6]
+        is_ms, is_pl = cls.endswith("_MS"), cls.startswith("pLSCF")
+        unc = cls == "SSIcov" and (k // 6) % 2 == 1
+        hc = _rand_hc(ctx, with_cov=not is_pl)
+        fs = rng.choice([20.0, 50.0])
+        if is_ms:
+            nset, nref, nmov, n = 2, rng.randint(1, 2), rng.randint(1, 2), rng.randint(400, 600)
+            full = _signal(ctx, nref + nset * nmov, n * nset, fs)
+            datasets = [full[i * n:(i + 1) * n][:, list(range(nref)) + [nref + i * nmov + q for q in range(nmov)]].copy() for i in range(nset)]
+            setup = MultiSetup_PreGER(fs=fs, ref_ind=[list(range(nref))] * nset, datasets=datasets)
+        else:
+            setup = SingleSetup(_signal(ctx, rng.randint(2, 3), rng.randint(500, 800), fs), fs=fs)
+        ordmax = rng.randint(4, 8)
+        if is_pl:
+            A = {"pLSCF": pLSCF, "pLSCF_MS": pLSCF_MS}[cls]
+            alg = A(name="a", ordmax=ordmax, nxseg=64, hc=hc)
+            cap = _Capture(f_plscf, "pLSCF_poles")
+        else:
+            A = {"SSIdat": SSIdat, "SSIcov": SSIcov, "SSIdat_MS": SSIdat_MS, "SSIcov_MS": SSIcov_MS}[cls]
+            kw = dict(name="a", br=rng.randint(ordmax // 2 + 2, ordmax + 2), ordmax=ordmax, hc=hc)
+            if unc:
+                kw.update(calc_unc=True, nb=10, method="cov_mm")
+            alg = A(**kw)
+            cap = _Capture(f_ssi, "SSI_poles")
+        setup.add_algorithms(alg)
+        try:
+            with cap:
+                setup.run_by_name("a")
+        except (np.linalg.LinAlgError, ValueError, IndexError):
+            ctx.count("corr_run_failed")
+            continue
+        unf, res = cap.out, alg.result
+        Fn0, Xi0, Phi0, Lam0 = unf[0], unf[1], unf[2], unf[3]
+        has_cov = (not is_pl) and len(unf) > 4 and unf[4] is not None
+        if has_cov:
+            # a covariance limit that actually bites
+            vals = unf[4][~np.isnan(unf[4])]
+            if vals.size:
+                hc = dict(hc)
+                hc["cov_max"] = float(np.quantile(vals, rng.choice([0.3, 0.6, 0.9])) * 1.0000001)
+                alg = A(**(kw | {"hc": hc, "name": "b"}))
+                setup.add_algorithms(alg)
+                with cap:
+                    setup.run_by_name("b")
+                unf, res = cap.out, alg.result
+                Fn0, Xi0, Phi0, Lam0 = unf[0], unf[1], unf[2], unf[3]
+        if not all(np.all(np.isfinite(a[~np.isnan(a)])) for a in (Fn0, Xi0)):
+            ctx.count("corr_run_nonfinite")
+            continue
+        rows, cols = Fn0.shape
+
+        def ind(f, v):
+            try:
+                x = float(f(v))
+            except Exception:
+                return None
+            return None if (math.isnan(x) or math.isinf(x)) else R(x)
+
+        phi_t = [[None if np.all(np.isnan(Phi0[i, j, :])) else [i, j, ind(gen.MPD, Phi0[i, j, :]), ind(gen.MPC, Phi0[i, j, :])]
+                  for j in range(cols)] for i in range(rows)]
+        req = {"class": cls, "conj": bool(hc["conj"]), "cov": bool(has_cov), "xi_max": R(hc["xi_max"]), "mpc_lim": R(hc["mpc_lim"]),
+               "mpd_lim": R(hc["mpd_lim"]), "fn": _tbl(Fn0), "xi": _tbl(Xi0), "phi": phi_t,
+               "lam": [[Cxo(v) for v in row] for row in Lam0]}
+        if has_cov:
+            req["cov_max"] = R(hc["cov_max"])
+            req["fncov"] = _tbl(unf[4])
+            req["xicov"] = _tbl(unf[5])
+            pc = unf[6]
+            req["phicov"] = [[None if np.all(np.isnan(pc[i, j])) else [i, j, None, None] for j in range(cols)] for i in range(rows)]
+        out = ctx.model("hc_run", **req)
+        ok, why = bool(out.get("returned")), "model run did not return"
+        removed = 0
+        if ok:
+            why = None
+            fields = out["fields"]
+            stored = {"Fn_poles": (res.Fn_poles, Fn0, "r"), "Xi_poles": (res.Xi_poles, Xi0, "r"), "Phi_poles": (res.Phi_poles, Phi0, "s")}
+            if not is_pl:
+                stored["Lambds"] = (res.Lambds, Lam0, "c")
+                stored["Fn_poles_cov"] = (res.Fn_poles_cov, unf[4] if has_cov else None, "r")
+                stored["Xi_poles_cov"] = (res.Xi_poles_cov, unf[5] if has_cov else None, "r")
+                stored["Phi_poles_cov"] = (res.Phi_poles_cov, unf[6] if has_cov else None, "s")
+            for name, (tab, tab0, kind) in stored.items():
+                if name not in fields:
+                    ok, why = False, f"{name}: not returned by the model"
+                    break
+                m = fields[name]
+                if m is None or tab is None:
+                    if not (m is None and tab is None):
+                        ok, why = False, f"{name}: None in {'model' if m is None else 'result'} only"
+                        break
+                    continue
+                tab = np.asarray(tab)
+                if tab.shape[:2] != (len(m), len(m[0]) if m else 0):
+                    ok, why = False, f"{name}: shape {tab.shape} vs model {len(m)}x{len(m[0]) if m else 0}"
+                    break
+                for i in range(rows):
+                    for j in range(cols):
+                        v, x = m[i][j], tab[i, j]
+                        if v is None:
+                            good = bool(np.all(np.isnan(x)))
+                            if name == "Fn_poles" and not np.isnan(Fn0[i, j]):
+                                removed += 1
+                        elif kind == "r":
+                            good = (not np.isnan(x)) and fl(v) == x
+                        elif kind == "c":
+                            good = (not (np.isnan(x.real) or np.isnan(x.imag))) and complex(fl(v[0]), fl(v[1])) == x
+                        else:
+                            i0, j0 = int(Fraction(v[0])), int(Fraction(v[1]))
+                            good = (not np.any(np.isnan(x))) and np.array_equal(x, tab0[i0, j0])
+                        if not good:
+                            ok, why = False, f"{name}[{i},{j}]: result {x!r} vs model {v!r}"
+                            break
+                    if not ok:
+                        break
+                if not ok:
+                    break
+        ctx.corr(f"run[{cls}]", ok, {"class": cls, "hc": {q: (v if isinstance(v, bool) else float(v)) for q, v in hc.items()}, "why": why,
+                                      "shape": [rows, cols], "unc": bool(has_cov)}, None, None,
+                 (cls, bool(hc["conj"]), bool(has_cov), removed > 0))
+        ctx.count("corr_run_poles_removed", removed)
 
 
 def _translator_selftest(ctx):
